@@ -228,6 +228,18 @@ def parse_rvalue(s):
         for idx in [i for i, c in enumerate(s) if c == "("]:
             if match_paren(s, idx) == len(s) - 1 and re.search(r"::\w+$", s[:idx].strip()):
                 return ("aggregate", s[:idx].strip(), [parse_operand(a) for a in split_top(s[idx + 1:-1])])
+    mc = re.match(r"^(\{(?:closure|async block|async closure|coroutine)@[^{}]*\})\s*\{(.*)\}$", s, re.S)
+    if mc:
+        fields = []
+        ok = True
+        for part in split_top(mc.group(2)):
+            mm = re.match(r"^(\w+):\s*(.*)$", part, re.S)
+            if not mm:
+                ok = False
+                break
+            fields.append((mm.group(1), parse_operand(mm.group(2))))
+        if ok:
+            return ("aggregate_named", mc.group(1), fields)
     m = re.match(r"^(.+?)\s*\{(.*)\}$", s, re.S)
     if m and not s.startswith("{"):
         fields = []
